@@ -668,6 +668,7 @@ func (c *Client) Do(ctx context.Context, q Query) (err error) {
 			span.End()
 		}()
 	}
+	parentCtx := ctx
 	g, ctx := errgroup.WithContext(ctx)
 	done := make(chan struct{})
 	var (
@@ -787,6 +788,12 @@ func (c *Client) Do(ctx context.Context, q Query) (err error) {
 			// whatever was encoded for the failed query but not flushed yet,
 			// so that it is not sent ahead of the next request.
 			c.writer = proto.NewWriter(c.conn, new(proto.Buffer))
+		}
+		if ctxErr := parentCtx.Err(); ctxErr != nil && !errors.Is(err, ctxErr) {
+			// E.g. a write blocked until the deadline copied from the context
+			// fails with an i/o timeout. Propagate the context error as well
+			// to allow errors.Is(err, context.DeadlineExceeded) assertions.
+			return errors.Wrap(multierr.Append(err, ctxErr), "context done")
 		}
 		return err
 	}
